@@ -28,7 +28,7 @@ QUICK_FAMS = ['OO', 'II', 'LF', 'fs', 'UO', 'OQ']
 
 
 def must_see(tier):
-    m = {'outcome:merged': 20, 'outcome:serial-no-merge': 20,
+    m = {'warm-connection': 50, 'outcome:merged': 20, 'outcome:serial-no-merge': 20,
          'outcome:conflict:12': 1, 'outcome:conflict:13': 1,
          'outcome:conflict:11': 1, 'outcome:conflict:0': 1,
          'outcome:read-conflict': 5, 'height>=3': 20,
@@ -315,6 +315,25 @@ def run_schedule(fam, kind, impl, rng, rec, idx):
     for t in range(3 if three else 2):
         conn = minidb.Connection(storage, impl)
         tree = conn.get(root_oid)
+        if idx % 3 == 1 and len(base._keys()):
+            # a connection that has been USED BEFORE: an earlier transaction
+            # wrote through the same nodes and was aborted (the committed
+            # tree is what it was; the nodes stay in this connection's
+            # cache with whatever they remember).  Read dependencies belong
+            # to a transaction: the next one has to declare its own.
+            try:
+                k0 = rng.choice(families.sort_keys(list(base._keys())))
+                if is_mapping:
+                    tree[k0] = rng.choice(vals)
+                    if rng.random() < .5:
+                        del tree[k0]
+                else:
+                    tree.remove(k0)
+                conn.abort()
+                rec.ev('warm-connection')
+            except Exception:
+                conn = minidb.Connection(storage, impl)
+                tree = conn.get(root_oid)
         import random as _random
         ops = gen_tx(fam, kind,
                      _random.Random(scen_seed) if scen == 'same-key' else rng,
